@@ -180,6 +180,14 @@ func engine(family, profile string, seed uint64, n int, out string, shard int, i
 			failures = append(failures, map[string]any{"id": 1000000, "tags": []string{"share"}, "detail": detail})
 		}
 	}
+	if family == "purity" && len(only) == 0 {
+		for k, p := range eng.PurityProbes() {
+			probes = append(probes, map[string]any{"tag": p.Tag, "failed": p.Failed, "detail": p.Detail})
+			if p.Failed {
+				failures = append(failures, map[string]any{"id": 1000000 + k, "tags": []string{p.Tag}, "detail": p.Detail})
+			}
+		}
+	}
 	if family == "fe" && len(only) == 0 {
 		for k, p := range eng.FEProbes() {
 			probes = append(probes, map[string]any{"tag": p.Tag, "failed": p.Failed, "detail": p.Detail})
